@@ -94,8 +94,21 @@ def generate(rng, tier, stats):
     out = []
     for _ in range(260 if tier == "quick" else 1500):
         out += gen_case(rng, tier, stats)
-    for _ in range(80 if tier == "quick" else 1200):
-        out.append(worldgen.gen_ers_world(rng, stats, {"open_gates": True, "rich_resources": True, "classes": ["none", "none", "uptodate_ready", "old_ready"]}))
+    for i in range(80 if tier == "quick" else 1200):
+        c = worldgen.gen_ers_world(rng, stats, {"open_gates": True, "rich_resources": True, "classes": ["none", "none", "uptodate_ready", "old_ready"],
+                                                "no_faults": i % 2 == 0})
+        if i % 2 == 0:
+            # a setting that is NOT valid (not reconciled yet, or in error) and selects the nodes pods are created on: it shapes nothing
+            sets = [o for o in c["objects"] if o["kind"] == "ExtendedDaemonsetSetting"]
+            if not sets:
+                sets = [K.setting(worldgen.NS, "set0", worldgen.EDS, {}, [("main", {"limits": {"cpu": "3"}, "requests": {"memory": "256Mi"}})], created=-1000)]
+                c["objects"] += sets
+            for o in sets:
+                o["spec"]["reference"] = {"name": worldgen.EDS, "kind": "ExtendedDaemonset"}
+                o["spec"]["nodeSelector"] = rng.choice([{}, {"matchLabels": {"role": "w"}}, {"matchExpressions": [{"key": "role", "operator": "Exists"}]}])
+                o.setdefault("status", {})["status"] = rng.choice(["", "", "error"])
+            wprop.bump(stats, "only settings that are not valid select the nodes", "yes")
+        out.append(c)
     return out
 
 
